@@ -809,6 +809,10 @@ pub struct C17Case {
     /// the queue): the retransmissions must be written before it
     #[serde(default)]
     pub queued_during_outage: bool,
+    /// k > 0: the second connection breaks (write error) after (k-1) mod n of the n bytes that are
+    /// re-sent on it have been accepted; a third connection must then re-send everything again
+    #[serde(default)]
+    pub second_outage: u16,
 }
 
 pub struct C17;
@@ -919,6 +923,18 @@ fn run_c17(case: &C17Case, cut: usize, o: &mut Outcome) -> Option<Failure> {
             _ => {}
         }
     }
+    // number of bytes the retransmission takes (the packets are re-sent as they were written)
+    let mut resend_len = 0usize;
+    for p in w.pkts.iter() {
+        let counted = match &p.decoded {
+            Ok(rc::Packet::Publish(x)) if x.qos > 0 => exs.iter().any(|e| Some(e.pid) == x.pid && e.ph == Ph::AwaitAck),
+            Ok(rc::Packet::Pubrel(a)) => exs.iter().any(|e| e.pid == a.pid && e.ph == Ph::AwaitComp),
+            _ => false,
+        };
+        if counted {
+            resend_len += p.end - p.start;
+        }
+    }
     let unacked = exs.iter().filter(|e| e.ph == Ph::AwaitAck).count();
     let between = exs.iter().filter(|e| e.ph == Ph::AwaitComp).count();
     if unacked >= 1 && between >= 1 {
@@ -963,10 +979,44 @@ fn run_c17(case: &C17Case, cut: usize, o: &mut Outcome) -> Option<Failure> {
         return Some(Failure { sig: "C17/second-connect".into(), msg: format!("{:?}", w.conn_results.last()) });
     }
     w.sync_wire();
-    let skip = w.pkts.len(); // the CONNECT
+    let mut skip = w.pkts.len(); // the CONNECT
+    let mut second_outage = false;
+    if alive && case.second_outage > 0 && resend_len > 0 {
+        // the second connection breaks while the retransmission is being written
+        let at = w.wire_len() + (case.second_outage as usize - 1) % resend_len;
+        w.writer.set_fault(crate::mockio::WriteFault::ErrAt(at));
+        w.tick();
+        w.start_run();
+        settle(&mut w, &plan, false);
+        if let Some(p) = first_panic(&w) {
+            return Some(Failure { sig: format!("PANIC/{}", panic_sig(&p)), msg: p });
+        }
+        if w.run_result.is_none() {
+            return None; // how run() ends on a write error is C13's claim
+        }
+        if !w.mark_disconnected(secs_ago) || !w.set_up_again() {
+            return Some(Failure { sig: "HARNESS/reconnect".into(), msg: "context not available (third connection)".into() });
+        }
+        let mut spec3 = spec.clone();
+        spec3.clean_start = Some(false);
+        let mut connack3 = connack.clone();
+        connack3.session_present = true;
+        w.tick();
+        w.start_connect(spec3);
+        settle(&mut w, &plan, false);
+        w.reader.feed(rc::encode(&rc::Packet::Connack(connack3), &rc::Form::canonical()));
+        settle(&mut w, &plan, false);
+        if !matches!(w.conn_results.last(), Some(ConnRes::Connack(_))) {
+            return Some(Failure { sig: "C17/second-connect".into(), msg: format!("third connection: {:?}", w.conn_results.last()) });
+        }
+        w.sync_wire();
+        skip = w.pkts.len();
+        second_outage = true;
+        o.class("second-outage-during-retransmission");
+    }
     w.tick();
     let mut late_op = None;
-    if case.queued_during_outage {
+    if case.queued_during_outage && !second_outage {
         let op = w.start_op(0, OpSpec::Publish(PublishSpec {
             qos: Some(1),
             topic: Some("c17/late".into()),
@@ -1348,11 +1398,12 @@ impl Property for C17 {
             any::<bool>(),
             prop_oneof![Just(Ago::Now), Just(Ago::HalfExpiry), Just(Ago::LongAfterExpiry)],
         )
-            .prop_map(|(history, expiry, connack_repeats, ago)| C17Case { history, expiry, connack_repeats, ago, queued_during_outage: false })
+            .prop_map(|(history, expiry, connack_repeats, ago)| C17Case { history, expiry, connack_repeats, ago, queued_during_outage: false, second_outage: 0 })
             .boxed();
-        (s, prop::bool::weighted(0.3))
-            .prop_map(|(mut c, q)| {
+        (s, prop::bool::weighted(0.3), prop_oneof![2 => Just(0u16), 1 => 1u16..400])
+            .prop_map(|(mut c, q, so)| {
                 c.queued_during_outage = q;
+                c.second_outage = so;
                 c
             })
             .boxed()
